@@ -83,9 +83,12 @@ var etypes = []int{18, 17, 19, 20, 16, 23}
 var exchanges = []string{"as", "tgs", "referral"}
 var maxCode = 93
 
+// codes delivered over TCP after the UDP attempt failed or asked for TCP
+var viaTCPCodes = []int64{6, 7, 12, 14, 18, 31, 41, 60}
+
 func Meta() core.Meta {
 	ns := len(singles())
-	q := ns*len(etypes)*len(exchanges) + 2*maxCode
+	q := ns*len(etypes)*len(exchanges) + 2*maxCode + 2*2*len(viaTCPCodes)
 	return core.Meta{
 		Engine: "c09", Property: "C09", Level: "fault_enumeration",
 		Rule:       "case = one run: a real client (keytab or password credential, one etype) performs an AS exchange, a TGS exchange or a referral chain against the reference KDC while exactly one reply is perturbed: a sealed or outer field changed (nonce +-1, cname, crealm, sname, srealm, ticket realm, addresses, authtime/starttime at and beyond the skew bound), sealed under another key / key usage / tag, ciphertext damaged, truncated, duplicated, replaced by the reply to the previous request, or replaced by a KRB-ERROR with each code 1..93; sweep = every single perturbation x 6 etypes x 3 exchanges + every error code x {AS,TGS} (thorough: x credential kind x pre-authentication flow); seeded runs add a second perturbation, hint layouts, transports and salts; distinct = distinct (exchange, flow, credential, etype, perturbations, outcome); non-trivial = a perturbation or network fault took effect",
@@ -113,7 +116,7 @@ func Gen(caseID, tier string) (json.RawMessage, error) {
 	}
 	ss := singles()
 	if kind == "sweep" {
-		per := len(ss)*len(etypes)*len(exchanges) + 2*maxCode
+		per := len(ss)*len(etypes)*len(exchanges) + 2*maxCode + 2*2*len(viaTCPCodes)
 		rep := int(n) / per
 		idx := int(n) % per
 		tp := Tape{Engine: "c09", RunSeed: 0xc09<<40 | n, Cred: "keytab", Flow: "none", Etype: 18, Addrs: true}
@@ -127,6 +130,15 @@ func Gen(caseID, tier string) (json.RawMessage, error) {
 		case 0:
 		default:
 			return nil, fmt.Errorf("sweep index out of range")
+		}
+		if idx >= len(ss)*len(etypes)*len(exchanges)+2*maxCode {
+			c := idx - len(ss)*len(etypes)*len(exchanges) - 2*maxCode
+			tp.Exchange = []string{"as", "tgs"}[c%2]
+			c /= 2
+			tp.Net = []string{"krberror-tcp-after-refuse", "krberror-tcp-after-toobig"}[c%2]
+			tp.NetArg = viaTCPCodes[c/2]
+			tp.TCP = false
+			return core.MustJSON(tp), nil
 		}
 		if idx >= len(ss)*len(etypes)*len(exchanges) {
 			c := idx - len(ss)*len(etypes)*len(exchanges)
@@ -196,6 +208,9 @@ func Gen(caseID, tier string) (json.RawMessage, error) {
 	}
 	if r.Chance(1, 10) {
 		tp.Net, tp.NetArg = "krberror", int64(r.Range(1, maxCode))
+		if r.Chance(1, 3) {
+			tp.Net, tp.TCP = r.Pick("krberror-tcp-after-refuse", "krberror-tcp-after-toobig"), false
+		}
 	}
 	return core.MustJSON(tp), nil
 }
